@@ -412,7 +412,7 @@ func (g G) planFlows(prop string) *Plan {
 	}
 	// a fifth of the worlds: signing requirements of every kind (requests are then signed where needed), applications that move
 	// to another entity more often
-	if g.chance("flows.signReq", 20) {
+	if g.chance("flows.signReq", 30) {
 		o.world.signReqVariety = true
 		o.wRereg = 4
 	}
